@@ -3,18 +3,15 @@
     Cones/SpecC13.v; proofs are in Cones/LemmasScal*.v.  Real-number interpretation of the
     models in Cones/{NN,SOC}.v, every dimension.
 
-    PARTIAL items (full statements visible in Cones/SpecC13.v, not proved, validated on every
-    run by the exact dyadic checkers of Cones/Check.v):
-      - [stmt_soc_nt_identities]  W z = λ = W⁻¹ s for the (w, η, λ) computed by update_scaling
-        (proved part: [C13_soc_nt_identities_partial] — w is normalised, η > 0, so every
-        operator-level theorem below applies to the computed scaling);
-      - [stmt_soc_get_Hs_dense_entries] / [stmt_soc_get_Hs_dense_length] (packing index of the
-        dense triangle), [stmt_soc_inv_circ];
-      - the PSD cone as a whole (LAPACK contracts), validated per call. *)
+    Still PARTIAL: the PSD cone (svec/mat index maps proved in Cones/PSDIndex.v when present;
+    the scaling itself rests on LAPACK contracts and is validated per call by the
+    correspondence run). *)
 From Coq Require Import List Reals Lra.
 Require Import Clarabel.Base.Ops Clarabel.Cones.Vec Clarabel.Cones.NN Clarabel.Cones.SOC
                Clarabel.Cones.SpecC15 Clarabel.Cones.SpecC13.
-Require Import Clarabel.Cones.LemmasScalNN Clarabel.Cones.LemmasScalSOC.
+Require Import Clarabel.Cones.LemmasScalNN Clarabel.Cones.LemmasScalSOC Clarabel.Cones.LemmasScalSOC2
+               Clarabel.Cones.LemmasScalSOC3 Clarabel.Cones.PSDIndex Clarabel.Cones.SpecPSD
+               Clarabel.Cones.LemmasPSDIndex.
 Import ListNotations.
 Open Scope R_scope.
 
@@ -54,10 +51,36 @@ Proof. exact soc_sparse_expansion_ok. Qed.
 (** second-order cone, update_scaling level *)
 Theorem C13_soc_nt_identities_partial : stmt_soc_nt_identities_partial.
 Proof. exact soc_nt_identities_partial_ok. Qed.
+(** W z = λ = W⁻¹ s and WᵀW z = s for the (w, η, λ) computed by update_scaling *)
+Theorem C13_soc_nt_identities : stmt_soc_nt_identities.
+Proof. exact soc_nt_identities_ok. Qed.
+Theorem C13_soc_nt_WtWz : stmt_soc_nt_WtWz.
+Proof. exact soc_nt_WtWz_ok. Qed.
+(** Δs_from_Δz_offset = Wᵀ(λ \ ds) *)
+Theorem C13_soc_ds_offset : stmt_soc_ds_offset.
+Proof. exact soc_ds_offset_ok. Qed.
+(** dense get_Hs: packed entry (row,col) sits at col(col+1)/2+row and is η²(2 w_row w_col − J) *)
+Theorem C13_soc_get_Hs_dense_entries : stmt_soc_get_Hs_dense_entries.
+Proof. exact soc_get_Hs_dense_entries_ok. Qed.
+Theorem C13_soc_get_Hs_dense_length : stmt_soc_get_Hs_dense_length.
+Proof. exact soc_get_Hs_dense_length_ok. Qed.
+(** y ∘ (y \ z) = z *)
+Theorem C13_soc_inv_circ : stmt_soc_inv_circ.
+Proof. exact soc_inv_circ_ok. Qed.
 Theorem C13_soc_affine_ds : stmt_soc_affine_ds.
 Proof. exact soc_affine_ds_ok. Qed.
 Theorem C13_soc_circ_def : stmt_soc_circ_def.
 Proof. exact soc_circ_def_ok. Qed.
+
+(** PSD cone: index maps of the scaled vectorisation (the scaling itself is partial) *)
+Theorem C13_psd_mat_svec_inverse : stmt_psd_mat_svec_inverse.
+Proof. exact psd_mat_svec_inverse_ok. Qed.
+Theorem C13_psd_svec_mat_inverse : stmt_psd_svec_mat_inverse.
+Proof. exact psd_svec_mat_inverse_ok. Qed.
+Theorem C13_psd_svec_isometry : stmt_psd_svec_isometry.
+Proof. exact psd_svec_isometry_ok. Qed.
+Theorem C13_psd_diag_index : stmt_psd_diag_index.
+Proof. exact psd_diag_index_ok. Qed.
 
 (** non-vacuity *)
 Example C13_ex_normalised : soc_normalised [3; 2; 2].
